@@ -143,6 +143,8 @@ fn run_one(target: &str, corpus: &Path, artifacts: &Path, runs: u64, seed: u64, 
         .arg(format!("-max_len={max_len}"))
         .arg(format!("-artifact_prefix={prefix}"))
         .arg("-print_final_stats=1")
+        // a wall-clock ceiling only bounds the campaign (fewer executions are reported as such); it is never a verdict
+        .arg(format!("-max_total_time={}", std::env::var("XV_FUZZ_MAX_SECS").ok().and_then(|v| v.parse::<u64>().ok()).unwrap_or(1200)))
         .arg("-timeout=120")
         .arg("-rss_limit_mb=6144")
         .env("RUST_BACKTRACE", "0")
@@ -311,6 +313,7 @@ pub fn campaign(ctx: &Ctx, plan: FuzzPlan) {
             "target": plan.target,
             "processes": plan.jobs,
             "runs_per_process": plan.runs,
+            "max_total_time_s_per_process": std::env::var("XV_FUZZ_MAX_SECS").ok().and_then(|v| v.parse::<u64>().ok()).unwrap_or(1200),
             "max_len": plan.max_len,
             "executions": executed,
             "edge_coverage_max": cov,
